@@ -27,8 +27,11 @@ def main(argv=None):
 
     def rule_fn(ctx):
         mod.run(ctx)
-        if args.tier == "thorough" and hasattr(mod, "run_thorough"):
-            mod.run_thorough(ctx)
+        if args.tier == "thorough":
+            if hasattr(mod, "run_thorough"):
+                mod.run_thorough(ctx)
+            from . import thorough
+            thorough.run(ctx)
 
     return run_check(prop, args.tier, seed, rule_fn, mod.EXPLANATION,
                      mod.TECHNIQUE, args.replay)
